@@ -449,3 +449,100 @@ Proof.
   - destruct Hp as [[Hc Hn] Hk]. split; [exact Hc|]. intros r. rewrite Hn. apply IH; [apply Hk|exact Hf].
   - destruct Hp as [Hb Hk]. split; [exact Hb|]. intros rs. apply IH; [apply Hk|exact Hf].
 Qed.
+
+(* ---- the join of a parallel section only sees what its branches returned -------------------- *)
+Lemma runs_par_results {A} s (bs : list (host * prog resp)) (k : list (host * resp) -> prog A) tr o :
+  runs (Par s bs k) tr o ->
+  (exists rs tk tpar,
+     (forall h r, In (h, r) rs -> exists b tb, In (h, b) bs /\ runs b tb (Done r)) /\
+     tr = tpar ++ tk /\ runs (k rs) tk o) \/
+  (exists s', o = Panicked s').
+Proof.
+  cbn [runs]. intros H.
+  assert (G : forall (bs0 : list (host * prog resp)) acc_tr acc_rs,
+    incl bs0 bs ->
+    (forall h r, In (h, r) acc_rs -> exists b tb, In (h, b) bs /\ runs b tb (Done r)) ->
+    (fix branches (bs : list (host * prog resp)) (acc_tr : list trace) (acc_rs : list (host * resp)) : Prop :=
+       match bs with
+       | [] => exists tpar tk rs, interleave (rev acc_tr) tpar /\ tr = tpar ++ tk /\ Permutation (rev acc_rs) rs /\ runs (k rs) tk o
+       | (h, b) :: bs' =>
+           exists tb ob, runs b tb ob /\
+             match ob with
+             | Done r => branches bs' (tb :: acc_tr) ((h, r) :: acc_rs)
+             | Panicked s' => o = Panicked s' /\ exists tpar, interleave (rev (tb :: acc_tr)) tpar /\ tr = tpar
+             end
+       end) bs0 acc_tr acc_rs ->
+    (exists rs tk tpar,
+       (forall h r, In (h, r) rs -> exists b tb, In (h, b) bs /\ runs b tb (Done r)) /\
+       tr = tpar ++ tk /\ runs (k rs) tk o) \/
+    (exists s', o = Panicked s')).
+  { induction bs0 as [|[h b] bs' IHb]; intros acc_tr acc_rs Hincl Hacc Hrun.
+    - destruct Hrun as (tpar & tk & rs & _ & E & Hp & Hk). left. exists rs, tk, tpar. split; [|split; assumption].
+      intros h r Hin. apply Hacc. apply in_rev. eapply Permutation_in; [apply Permutation_sym; exact Hp|exact Hin].
+    - destruct Hrun as (tb & ob & Hrb & Hrest). destruct ob as [r|s'].
+      + apply (IHb (tb :: acc_tr) ((h, r) :: acc_rs)); [intros x Hx; apply Hincl; right; exact Hx| |exact Hrest].
+        intros h0 r0 [E|Hin]; [inversion E; subst; exists b, tb; split; [apply Hincl; left; reflexivity|exact Hrb]|apply Hacc; exact Hin].
+      + destruct Hrest as [E _]. right. exists s'. exact E. }
+  apply (G bs [] []); [apply incl_refl|intros h r []|exact H].
+Qed.
+
+(* ---- rets: every value the program can return satisfies Q -------------------------------------- *)
+Fixpoint rets {A} (Q : A -> Prop) (p : prog A) : Prop :=
+  match p with
+  | Ret a => Q a
+  | Panic _ => True
+  | Do s c k => forall r, rets Q (k r)
+  | Par s bs k => forall rs, rets Q (k rs)
+  end.
+Lemma rets_sound {A} (Q : A -> Prop) (p : prog A) : rets Q p -> forall tr a, runs p tr (Done a) -> Q a.
+Proof.
+  induction p as [a0|s|s c k IH|s bs k IH] using prog_ind_k; cbn [rets]; intros H tr a R.
+  - cbn in R. destruct R as [_ E]. inversion E; subst. exact H.
+  - cbn in R. destruct R as [_ E]. discriminate E.
+  - cbn [runs] in R. destruct tr as [|e tr']; [destruct R|]. destruct R as (_ & _ & R). exact (IH _ (H _) _ _ R).
+  - destruct (runs_par_results _ _ _ _ _ R) as [(rs & tk & tpar & _ & _ & Rk)|(s' & E)]; [|discriminate E].
+    exact (IH rs (H rs) _ _ Rk).
+Qed.
+Lemma rets_bind {A B} (Q : B -> Prop) (p : prog A) (f : A -> prog B) :
+  (forall a, rets Q (f a)) -> rets Q (bind p f).
+Proof.
+  induction p as [a0|s|s c k IH|s bs k IH] using prog_ind_k; intros H; cbn [bind rets]; auto.
+Qed.
+
+(* a parallel section on the spine of a procedure: its branches' events satisfy what the branches
+   guarantee, and the rest of the run is a run of the continuation on some results *)
+Lemma runs_par_split {A} (P : site -> call -> Prop) s (bs : list (host * prog resp)) (k : list (host * resp) -> prog A) tr o :
+  (fix go (bs : list (host * prog resp)) : Prop :=
+     match bs with [] => True | (_, b) :: r => allcalls P b /\ go r end) bs ->
+  runs (Par s bs k) tr o ->
+  (exists rs tk tpar, tr = tpar ++ tk /\ Forall (ev_ok P) tpar /\ runs (k rs) tk o) \/
+  (Forall (ev_ok P) tr /\ exists s', o = Panicked s').
+Proof.
+  cbn [runs]. intros Hbs H.
+  assert (G : forall (bs0 : list (host * prog resp)) acc_tr acc_rs,
+    (fix go (bs : list (host * prog resp)) : Prop :=
+       match bs with [] => True | (_, b) :: r => allcalls P b /\ go r end) bs0 ->
+    Forall (Forall (ev_ok P)) acc_tr ->
+    (fix branches (bs : list (host * prog resp)) (acc_tr : list trace) (acc_rs : list (host * resp)) : Prop :=
+       match bs with
+       | [] => exists tpar tk rs, interleave (rev acc_tr) tpar /\ tr = tpar ++ tk /\ Permutation (rev acc_rs) rs /\ runs (k rs) tk o
+       | (h, b) :: bs' =>
+           exists tb ob, runs b tb ob /\
+             match ob with
+             | Done r => branches bs' (tb :: acc_tr) ((h, r) :: acc_rs)
+             | Panicked s' => o = Panicked s' /\ exists tpar, interleave (rev (tb :: acc_tr)) tpar /\ tr = tpar
+             end
+       end) bs0 acc_tr acc_rs ->
+    (exists rs tk tpar, tr = tpar ++ tk /\ Forall (ev_ok P) tpar /\ runs (k rs) tk o) \/
+    (Forall (ev_ok P) tr /\ exists s', o = Panicked s')).
+  { induction bs0 as [|[h b] bs' IHb]; intros acc_tr acc_rs Hgo Hacc Hrun.
+    - destruct Hrun as (tpar & tk & rs & Hi & E & _ & Hrk). left. exists rs, tk, tpar. split; [exact E|]. split; [|exact Hrk].
+      eapply interleave_Forall; eauto. apply Forall_rev. exact Hacc.
+    - destruct Hgo as [Hb Hgo]. destruct Hrun as (tb & ob & Hrb & Hrest).
+      assert (Forall (ev_ok P) tb) as Htb by (eapply (allcalls_sound P b); eauto).
+      destruct ob as [r|s'].
+      + apply (IHb (tb :: acc_tr) ((h, r) :: acc_rs)); [exact Hgo|constructor; auto|exact Hrest].
+      + destruct Hrest as (E & tpar & Hi & ->). right. split; [|exists s'; exact E].
+        eapply interleave_Forall; eauto. apply Forall_rev. constructor; auto. }
+  apply (G bs [] []); [exact Hbs|constructor|exact H].
+Qed.
